@@ -386,6 +386,155 @@ def pop_exhaustive_case(ctx, rng, idx):
     _pop_history(ctx, rng, leaves, n_ids, reduced, list(ops), 'exhaustive')
 
 
+# ------------------------------------- sub-models reconfigured in a composite
+def _counts_agree(ctx, m, n_ids, feats, what):
+    """n_parameters == names == hierarchical top count; gradients of the
+    reported lengths; returns False after reporting a problem"""
+    names = m.get_parameter_names()
+    n = m.n_parameters()
+    n_b, n_t = m.n_hierarchical_parameters(n_ids)
+    ctx.count('invariant_evaluations')
+    if not (n == len(names) == n_t):
+        _bad(ctx, 'population_counts',
+             {'problems': ['%s: n_parameters=%s names=%s hierarchical top=%s'
+                           % (what, n, len(names), n_t)], 'names': names},
+             feats)
+        return False
+    # evaluate at a vector of the reported length (values only need to be
+    # accepted; the lengths of what comes back are compared)
+    top = np.full(n, 0.7)
+    obs = np.full((n_ids, m.n_dim()), 0.7)
+    kw = {}
+    if m.n_covariates():
+        kw['covariates'] = np.full((n_ids, m.n_covariates()), 0.1)
+    try:
+        s, g = m.compute_sensitivities(top, obs, reduce=True, **kw)
+        s2, dpsi, dth = m.compute_sensitivities(top, obs, **kw)
+        m.compute_log_likelihood(top, obs, **kw)
+    except Exception as e:      # noqa
+        ctx.violation_exc('vector_of_reported_length_evaluates', e,
+                          {'what': what, 'names': names}, feats)
+        return False
+    ctx.count('gradient_lengths_checked')
+    if np.asarray(g).shape != (n_b + n_t,) or np.asarray(dth).shape != (n,):
+        _bad(ctx, 'population_gradient_length',
+             {'what': what, 'reduced': np.asarray(g).shape,
+              'dtheta': np.asarray(dth).shape, 'reported': (n_b, n_t, n)},
+             feats)
+        return False
+    return True
+
+
+def submodel_case(ctx, rng, idx):
+    """a composite whose sub-model is reconfigured AFTER composing (the
+    calls exist only on the sub-model classes), and wrapped heterogeneous
+    sub-models that were created for another number of individuals"""
+    mode = ['sub_fix', 'sub_select', 'wrapped_heterogeneous'][idx % 3]
+    n_ids = int(rng.integers(1, 5))
+    other = [chi.PooledModel(), chi.GaussianModel(),
+             chi.LogNormalModel(n_dim=2)][int(rng.integers(3))]
+    first = bool(rng.integers(2))
+    feats = {'mode': mode, 'n_ids': n_ids, 'other': type(other).__name__,
+             'wrapped_first': first}
+    ctx.case(('submodel', mode, n_ids, feats['other'], first), True,
+             sample=feats)
+    try:
+        if mode == 'sub_fix':
+            base = [chi.GaussianModel, chi.LogNormalModel,
+                    chi.TruncatedGaussianModel][int(rng.integers(3))](
+                n_dim=int(rng.integers(1, 3)))
+            sub = chi.ReducedPopulationModel(base)
+        elif mode == 'sub_select':
+            base = [chi.GaussianModel, chi.LogNormalModel][
+                int(rng.integers(2))](n_dim=int(rng.integers(1, 3)))
+            sub = chi.CovariatePopulationModel(
+                base, chi.LinearCovariateModel(n_cov=int(rng.integers(1, 3))))
+        else:
+            n_made = int(rng.integers(1, 5))
+            feats['n_ids_at_construction'] = n_made
+            het = chi.HeterogeneousModel(n_dim=int(rng.integers(1, 3)),
+                                         n_ids=n_made)
+            sub = chi.ReducedPopulationModel(het) if rng.random() < 0.5 \
+                else chi.CovariatePopulationModel(
+                    het, chi.LinearCovariateModel())
+            feats['wrapper'] = type(sub).__name__
+        pop = chi.ComposedPopulationModel(
+            [sub, other] if first else [other, sub])
+        if mode == 'wrapped_heterogeneous' and rng.random() < 0.5:
+            # used as composed, for the number of individuals the wrapped
+            # model was created for
+            n_ids = n_made
+            feats['n_ids'] = n_ids
+            feats['set_n_ids_after_composing'] = False
+        else:
+            pop.set_n_ids(n_ids)
+    except Exception as e:      # noqa
+        ctx.violation_exc('construction_raises', e, {'case': feats}, feats)
+        return
+    if not _counts_agree(ctx, pop, n_ids, feats, 'after composing'):
+        return
+    inner = pop.get_population_models()[0 if first else 1]
+    try:
+        if mode == 'sub_fix':
+            nm = inner.get_parameter_names()
+            inner.fix_parameters({nm[int(rng.integers(len(nm)))]: 0.6})
+        elif mode == 'sub_select':
+            inner.set_population_parameters(
+                [[int(rng.integers(2)), int(rng.integers(inner.n_dim()))]])
+        else:
+            k = int(rng.integers(1, 5))
+            feats['set_n_ids'] = k
+            pop.set_n_ids(k)
+            n_ids = k
+    except Exception as e:      # noqa
+        ctx.violation_exc('reconfiguration_raises', e, {'case': feats},
+                          feats)
+        return
+    ctx.count('reconfiguration_steps')
+    if not _counts_agree(ctx, pop, n_ids, feats,
+                         'after reconfiguring the sub-model'):
+        return
+    # a hierarchical likelihood over the reconfigured composite
+    n_dim = pop.n_dim()
+    if n_dim > 4:
+        return
+    lls = []
+    for _ in range(n_ids):
+        c = GL.LLCase(rng, n_out=max(1, n_dim - 3), allow_empty=False,
+                      em_classes=['GaussianErrorModel'])
+        ll = c.build()
+        names_ll = ll.get_parameter_names()
+        drop = len(names_ll) - n_dim
+        if drop < 0:
+            return
+        if drop:
+            ll.fix_parameters({nm_: 0.4 for nm_ in names_ll[-drop:]})
+        lls.append(ll)
+    kw = {}
+    if pop.n_covariates():
+        kw['covariates'] = np.full((n_ids, pop.n_covariates()), 0.1)
+    try:
+        hl = chi.HierarchicalLogLikelihood(lls, pop, **kw)
+        n = hl.n_parameters()
+        names = hl.get_parameter_names()
+        ids = hl.get_id()
+        ctx.count('hierarchical_objects_checked')
+        if not (n == len(names) == len(ids)):
+            _bad(ctx, 'hierarchical_counts',
+                 {'problems': ['n=%s names=%s ids=%s' % (
+                     n, len(names), len(ids))], 'case': feats}, feats)
+            return
+        x = np.full(n, 0.7)
+        hl(x)
+        s, g = hl.evaluateS1(x)
+        if np.asarray(g).shape != (n,):
+            _bad(ctx, 'hierarchical_gradient_length',
+                 {'shape': np.asarray(g).shape, 'n_parameters': n}, feats)
+    except Exception as e:      # noqa
+        ctx.violation_exc('vector_of_reported_length_evaluates', e,
+                          {'case': feats, 'what': 'hierarchical'}, feats)
+
+
 # ------------------------------------------------- individual-level objects
 def individual_case(ctx, rng, idx):
     case = GL.LLCase(rng, allow_empty=False)
@@ -748,4 +897,5 @@ FAMILIES = [
     Family('individual', individual_case, quick=400, thorough=6000),
     Family('mechanistic', mech_case, quick=160, thorough=2000),
     Family('controller', controller_case, quick=300, thorough=4000),
+    Family('submodel', submodel_case, quick=360, thorough=3600),
 ]
